@@ -19,10 +19,10 @@ CHECKS = {
   note="rounds > 0 for the corrupted proposal and joint corruptions are not yet driven. One genuine defect found and fixed (known_findings.txt)."),
  "C16": dict(
   level="exploration", design="§5 C16", engine="detsim",
-  technique="hostile-input monitoring: boundary-valued consensus messages of all kinds and mutated bytes through the real ConsensusReactor.Receive and the real state machine in a deterministic simulation; panic / allocation / bounded-progress oracles",
+  technique="hostile-input monitoring: boundary-valued consensus messages of all kinds and mutated bytes through the real ConsensusReactor.Receive and the real state machine in a deterministic simulation; panic / allocation / bounded-progress oracles; lane C16M: bursts over a real MConnection; lane C16G: the real reactor with its per-peer gossip goroutines running for a hostile peer that announces peer state consistent with the victim but with hostile indices and bit arrays (goroutine panic = process death = violation)",
   text="Every hostile message is encoded and handed to the real reactor, then the state machine's peer queue is drained; a panic after the reactor accepted the message, a per-message allocation above 64 MiB, a child killed by the 6 GiB address-space cap, or a victim that cannot commit the next block in a fault-free continuation (with modelled catch-up gossip) is a violation. "
-       "Sender roles: outsider, validator with a valid key, current proposer with its key. Held on the messages and states explored.",
-  note="panics inside Receive itself are recovered per connection in production and are only counted. Three genuine defects found and fixed (known_findings.txt)."),
+       "Sender roles: outsider, validator with a valid key, current proposer with its key; hostile units include correctly signed proposals whose part set really reassembles to hostile block bytes, and verbatim repeats. Held on the messages and states explored.",
+  note="panics inside Receive itself are recovered per connection in production and are only counted. Five genuine defects found and fixed (known_findings.txt): negative part index, nil LastCommit precommit, unbounded parts total, proposal block without header/data/commit, malformed peer bit arrays killing the process through the gossip goroutines."),
  "C17": dict(
   level="exploration", design="§5 C17", engine="refmodel",
   technique="differential monitoring of the real ValidatorSet / updateStatus / fault-evidence code against a one-step big.Int reference, path-composition comparison, exact fairness windows",
